@@ -12,6 +12,11 @@ Section Peer.
 Variable lf : list byte -> list byte.
 Variable tb : byte.
 Variable explicit : bool.
+(* unrecognised elements a peer appends after the defined components of an extensible SEQUENCE, per
+   site (0 control, 1 SASL credentials, 2 bind request, 3 bind response, 4 search request, 5 entry,
+   6 partial attribute, 7 search done, 8 extended request, 9 extended response, 10 envelope,
+   11 attribute-value assertion, 12 not, 13 substring filter, 14 extensible match, 15 paged value) *)
+Variable trail : nat -> list (tag * list byte).
 
 Definition ptlv (t : tag) (data : list byte) : list byte :=
   pack_identifier (t_cls t) (t_cons t) (t_num t) ++ lf data ++ data.
@@ -26,8 +31,10 @@ Definition pw_oct (t : tag) (v : list byte) := ptlv t v.
 Definition pw_opt_oct (t : tag) (v : option (list byte)) : list byte :=
   match v with Some v => pw_oct t v | None => [] end.
 
+Definition ptrail (site : nat) : list byte := flat_map (fun x => ptlv (fst x) (snd x)) (trail site).
+
 Definition ppaged_value (size : Z) (cookie : octets) : octets :=
-  ptlv u_seq (pw_int size ++ pw_oct u_oct cookie).
+  ptlv u_seq (pw_int size ++ pw_oct u_oct cookie ++ ptrail 15).
 
 Definition pcontrol_value (c : control) : option octets :=
   match c with
@@ -39,36 +46,38 @@ Definition pcontrol_value (c : control) : option octets :=
 Definition penc_control (c : control) : list byte :=
   ptlv u_seq (pw_oct u_oct (control_oid c)
               ++ pw_dflt u_bool (control_crit c)
-              ++ pw_opt_oct u_oct (pcontrol_value c)).
+              ++ pw_opt_oct u_oct (pcontrol_value c) ++ ptrail 0).
 
 Definition penc_cred (c : cred) : list byte :=
   match c with
   | CrSimple pw => pw_oct (ctx aid_simple false) pw
-  | CrSasl mech creds => ptlv (ctx aid_sasl true) (pw_oct u_oct mech ++ pw_opt_oct u_oct creds)
+  | CrSasl mech creds => ptlv (ctx aid_sasl true) (pw_oct u_oct mech ++ pw_opt_oct u_oct creds ++ ptrail 1)
   end.
 
 Fixpoint penc_filter (f : filter) : list byte :=
   match f with
   | FAnd fs => ptlv (ctx fid_and true) (flat_map penc_filter fs)
   | FOr fs => ptlv (ctx fid_or true) (flat_map penc_filter fs)
-  | FNot g => ptlv (ctx fid_not true) (penc_filter g)
-  | FEq a v => ptlv (ctx fid_equality true) (pw_oct u_oct a ++ pw_oct u_oct v)
-  | FGe a v => ptlv (ctx fid_ge true) (pw_oct u_oct a ++ pw_oct u_oct v)
-  | FLe a v => ptlv (ctx fid_le true) (pw_oct u_oct a ++ pw_oct u_oct v)
-  | FApprox a v => ptlv (ctx fid_approx true) (pw_oct u_oct a ++ pw_oct u_oct v)
+  | FNot g => ptlv (ctx fid_not true) (penc_filter g ++ ptrail 12)
+  | FEq a v => ptlv (ctx fid_equality true) (pw_oct u_oct a ++ pw_oct u_oct v ++ ptrail 11)
+  | FGe a v => ptlv (ctx fid_ge true) (pw_oct u_oct a ++ pw_oct u_oct v ++ ptrail 11)
+  | FLe a v => ptlv (ctx fid_le true) (pw_oct u_oct a ++ pw_oct u_oct v ++ ptrail 11)
+  | FApprox a v => ptlv (ctx fid_approx true) (pw_oct u_oct a ++ pw_oct u_oct v ++ ptrail 11)
   | FPresent a => pw_oct (ctx fid_present false) a
   | FSub a ini any fin =>
       ptlv (ctx fid_substrings true)
         (pw_oct u_oct a
          ++ ptlv u_seq (pw_opt_oct (ctx 0 false) ini
                         ++ cat (pw_oct (ctx 1 false)) any
-                        ++ pw_opt_oct (ctx 2 false) fin))
+                        ++ pw_opt_oct (ctx 2 false) fin)
+         ++ ptrail 13)
   | FExt rule attr v dn =>
       ptlv (ctx fid_extensible true)
         (pw_opt_oct (ctx 1 false) rule
          ++ pw_opt_oct (ctx 2 false) attr
          ++ pw_oct (ctx 3 false) v
-         ++ pw_dflt (ctx 4 false) dn)
+         ++ pw_dflt (ctx 4 false) dn
+         ++ ptrail 14)
   end.
 
 Definition penc_result (r : ldap_result) : list byte :=
@@ -79,22 +88,22 @@ Definition penc_result (r : ldap_result) : list byte :=
      end.
 
 Definition penc_partial_attr (a : partial_attr) : list byte :=
-  ptlv u_seq (pw_oct u_oct (pa_name a) ++ ptlv u_set (cat (pw_oct u_oct) (pa_vals a))).
+  ptlv u_seq (pw_oct u_oct (pa_name a) ++ ptlv u_set (cat (pw_oct u_oct) (pa_vals a)) ++ ptrail 6).
 
 Definition penc_op_inner (o : op) : list byte :=
   match o with
-  | BindRequest version name auth => pw_int version ++ pw_oct u_oct name ++ penc_cred auth
-  | BindResponse res sasl => penc_result res ++ pw_opt_oct (ctx 7 false) sasl
+  | BindRequest version name auth => pw_int version ++ pw_oct u_oct name ++ penc_cred auth ++ ptrail 2
+  | BindResponse res sasl => penc_result res ++ pw_opt_oct (ctx 7 false) sasl ++ ptrail 3
   | UnbindRequest => []
   | SearchRequest base scope deref size time types_only f attrs =>
       pw_oct u_oct base ++ pw_enum scope ++ pw_enum deref ++ pw_int size ++ pw_int time
-      ++ pw_bool u_bool types_only ++ penc_filter f ++ ptlv u_seq (cat (pw_oct u_oct) attrs)
-  | SearchResultEntry name attrs => pw_oct u_oct name ++ ptlv u_seq (cat penc_partial_attr attrs)
-  | SearchResultDone res => penc_result res
+      ++ pw_bool u_bool types_only ++ penc_filter f ++ ptlv u_seq (cat (pw_oct u_oct) attrs) ++ ptrail 4
+  | SearchResultEntry name attrs => pw_oct u_oct name ++ ptlv u_seq (cat penc_partial_attr attrs) ++ ptrail 5
+  | SearchResultDone res => penc_result res ++ ptrail 7
   | SearchResultReference uris => cat (pw_oct u_oct) uris
-  | ExtendedRequest name value => pw_oct (ctx 0 false) name ++ pw_opt_oct (ctx 1 false) value
+  | ExtendedRequest name value => pw_oct (ctx 0 false) name ++ pw_opt_oct (ctx 1 false) value ++ ptrail 8
   | ExtendedResponse res name value =>
-      penc_result res ++ pw_opt_oct (ctx 10 false) name ++ pw_opt_oct (ctx 11 false) value
+      penc_result res ++ pw_opt_oct (ctx 10 false) name ++ pw_opt_oct (ctx 11 false) value ++ ptrail 9
   end.
 
 Definition penc_msg (m : msg) : list byte :=
@@ -103,7 +112,8 @@ Definition penc_msg (m : msg) : list byte :=
               ++ match m_controls m with
                  | [] => []
                  | cs => ptlv (ctx 0 true) (cat penc_control cs)
-                 end).
+                 end
+              ++ ptrail 10).
 End Peer.
 
 (* the library's own encoder is the peer that always chooses minimal lengths, FF and omission *)
